@@ -647,3 +647,50 @@ Proof.
   { rewrite init_fields. unfold measure. cbn [prods cons]. rewrite A, B. reflexivity. }
   lia.
 Qed.
+
+(* ------------------------------------------------------------------------------------------- *)
+(* Refinement to the atomic bounded FIFO: the abstract queue content is the list of values stored and not yet loaded. *)
+(* A store appends to it, a load removes its head, every other operation leaves it alone, and it never holds more   *)
+(* than k values.  (Linearisation points: the store into the slot / the load from the slot.)                         *)
+Definition absq (s : st) : list val := skipn (length (loaded s)) (map snd (hist s)).
+
+Lemma skipn_app_le' : forall A (l r : list A) n, n <= length l -> skipn n (l ++ r) = skipn n l ++ r.
+Proof. induction l as [|h t IH]; intros r [|n] H; simpl in *; try lia; auto. apply IH. lia. Qed.
+Lemma skipn_nth' : forall A (l : list A) n d, n < length l -> skipn n l = nth n l d :: skipn (S n) l.
+Proof. induction l as [|h t IH]; intros [|n] d H; simpl in *; try lia; auto. apply IH. lia. Qed.
+
+Theorem refines_atomic : forall k items counts s t s', reachable k items counts s -> step s t = Some s' ->
+  length (absq s) <= k /\
+  (   (exists i v, t = P i /\ absq s' = absq s ++ [v] /\ stored_by i s' = stored_by i s ++ [v])      (* Produce takes effect *)
+   \/ (exists j v, t = C j /\ absq s = v :: absq s' /\ consumed_by j s' = consumed_by j s ++ [v])     (* Consume takes effect *)
+   \/ (absq s' = absq s /\ hist s' = hist s /\ loaded s' = loaded s)).
+Proof.
+  intros k items counts s t s' H Hs.
+  destruct (reachable_inv _ _ _ _ H) as [[G0 G1 G2 G3 G4 G5 G6 G7 G8 G9 G10] [DR DL DP]].
+  pose proof (cls_tok _ (prods s)) as Tp. pose proof (cls_claim _ (cons s)) as [Cc Cc'].
+  pose proof (cls_lock _ (cons s)) as Lc.
+  assert (Hll : length (loaded s) <= length (hist s)) by lia.
+  split.
+  - unfold absq. rewrite skipn_length, map_length. lia.
+  - destruct t as [i|j]; simpl in Hs.
+    + destruct (pstep_spec _ _ _ Hs) as (pc & v & rest & Hn & Hc).
+      destruct Hc as [(-> & He & ->)|[(-> & Hm & ->)|[(-> & ->)|[(-> & ->)|[(-> & ->)|(-> & ->)]]]]];
+        try solve [right; right; unfold absq; simpl; auto].
+      left. exists i, v. split; [reflexivity|]. unfold absq, stored_by. simpl.
+      rewrite map_app, skipn_app_le' by (rewrite map_length; lia). split; [reflexivity|].
+      rewrite filter_app, map_app. simpl. rewrite Nat.eqb_refl. reflexivity.
+    + destruct (cstep_spec _ _ _ Hs) as (pc & n & Hn & Hc).
+      destruct Hc as [(-> & He & ->)|[(-> & Hm & ->)|[(-> & ->)|[(-> & ->)|[(-> & ->)|(-> & ->)]]]]];
+        try solve [right; right; unfold absq; simpl; auto].
+      right; left.
+      pose proof (cnt_nth_pos _ at2 _ _ _ Hn eq_refl) as A2.
+      assert (B : cnt inLock (cons s) <= 1) by (rewrite G4; destruct (cm s); simpl; lia).
+      assert (A3 : cnt at3 (cons s) = 0) by lia.
+      assert (Hlen : length (loaded s) = ca s) by lia.
+      assert (Hlt : ca s < length (hist s)) by lia.
+      exists j, (nth (ca s mod length (ring s)) (ring s) 0). split; [reflexivity|]. unfold absq, consumed_by. simpl.
+      rewrite app_length. simpl. rewrite Nat.add_1_r. split.
+      * rewrite (skipn_nth' _ (map snd (hist s)) (length (loaded s)) 0) by (rewrite map_length; lia).
+        f_equal. rewrite Hlen, G0, DR by lia. apply (map_nth snd (hist s) (0, 0) (ca s)).
+      * rewrite filter_app, map_app. simpl. rewrite Nat.eqb_refl. reflexivity.
+Qed.
